@@ -478,6 +478,12 @@ func (m *fakeMsg) Get(fd protoreflect.FieldDescriptor) protoreflect.Value {
 	if s, ok := m.subs[n]; ok {
 		return protoreflect.ValueOfMessage(s)
 	}
+	if fd.(*fakeFD).list {
+		if l, ok := m.lists[n]; ok {
+			return protoreflect.ValueOfList(l)
+		}
+		return protoreflect.ValueOfList(&fakeList{})
+	}
 	return fd.(*fakeFD).Default()
 }
 
